@@ -1,6 +1,7 @@
 package main
 
 import (
+	"bytes"
 	"io"
 	"strings"
 
@@ -74,12 +75,73 @@ func runSteps(s stepper, ts []tok.Token) string {
 	return sb.String()
 }
 
+// runStepsSlot feeds the same tokens the way the library's own producers do: through ONE token slot that is reused for
+// the whole run and in which only the fields the token's type gives meaning to are written (so every other field,
+// including the tag fields on a closing token, still holds what some earlier token left there).
+func runStepsSlot(s stepper, ts []tok.Token) string {
+	slot := tok.Token{Length: 7, Str: "stale", Bytes: []byte("stale"), Bool: true, Int: -77, Uint: 1<<64 - 1, Float64: 2.5}
+	var sb strings.Builder
+	for i := range ts {
+		t := ts[i]
+		slot.Type = t.Type
+		if t.Type != tok.TMapClose && t.Type != tok.TArrClose {
+			slot.Tagged = t.Tagged
+			if t.Tagged {
+				slot.Tag = t.Tag
+			}
+		}
+		switch t.Type {
+		case tok.TMapOpen, tok.TArrOpen:
+			slot.Length = t.Length
+		case tok.TString:
+			slot.Str = t.Str
+		case tok.TBytes:
+			slot.Bytes = t.Bytes
+		case tok.TBool:
+			slot.Bool = t.Bool
+		case tok.TInt:
+			slot.Int = t.Int
+		case tok.TUint:
+			slot.Uint = t.Uint
+		case tok.TFloat64:
+			slot.Float64 = t.Float64
+		}
+		done, err, p := safeStep(s, &slot)
+		switch {
+		case p:
+			sb.WriteByte('P')
+			return sb.String()
+		case err != nil:
+			sb.WriteByte('E')
+			return sb.String()
+		case done:
+			sb.WriteByte('D')
+			return sb.String()
+		default:
+			sb.WriteByte('.')
+		}
+	}
+	return sb.String()
+}
+
+// encodeBoth runs an encoder over fresh tokens and over the reused slot; they must agree, and when they do not the
+// reused-slot run is the one reported (it is what a pump does).
+func encodeBoth(mk func(io.Writer) stepper, ts []tok.Token) (string, *recordingWriter) {
+	w := &recordingWriter{}
+	fl := runSteps(mk(w), ts)
+	w2 := &recordingWriter{}
+	fl2 := runStepsSlot(mk(w2), ts)
+	if fl2 != fl || !bytes.Equal(joinCalls(w.calls), joinCalls(w2.calls)) {
+		return fl2, w2
+	}
+	return fl, w
+}
+
 func opAcc(p []string) string {
 	ts, err := parseToks(p[1])
 	if err != nil {
 		return "bad-op"
 	}
-	w := &recordingWriter{}
-	s := newEncoder(p[0], w, json.EncodeOptions{})
-	return "I=" + runSteps(s, ts)
+	fl, _ := encodeBoth(func(w io.Writer) stepper { return newEncoder(p[0], w, json.EncodeOptions{}) }, ts)
+	return "I=" + fl
 }
